@@ -12,6 +12,7 @@ package clause
 
 //@ func (Limit).MergeClause
 //@   tags C15
+//@   modifies *clause
 //@   let o = clause.Expression
 //@   ensures name: clause.Name == ""
 //@   ensures kind: is(clause.Expression, Limit)
@@ -47,7 +48,10 @@ package clause
 
 //@ func (Where).MergeClause
 //@   tags C09 C02
+//@   modifies *clause
 //@   let o = clause.Expression
+//@   ensures name-kept: clause.Name == old(clause.Name)
+//@   ensures order: is(o, Where) ==> forall(k, 0, len(o.(Where).Exprs), clause.Expression.(Where).Exprs[k] == old(o.(Where).Exprs[k])) && forall(j, len(o.(Where).Exprs), len(o.(Where).Exprs) + len(where.Exprs), clause.Expression.(Where).Exprs[j] == old(where.Exprs[j - len(o.(Where).Exprs)]))
 //@   ensures stays-where: is(clause.Expression, Where)
 //@   ensures concatenates: is(o, Where) ==> len(clause.Expression.(Where).Exprs) == len(o.(Where).Exprs) + len(where.Exprs)
 //@   ensures first: !is(o, Where) ==> clause.Expression.(Where) == where
